@@ -451,6 +451,13 @@ func (env *Env) evalQuant(n EQuant) Val {
 	if n.Forall {
 		q = "forall"
 	}
+	if len(n.Trig) > 0 {
+		var ps []string
+		for _, t := range n.Trig {
+			ps = append(ps, e.asTerm(env.st, sub.eval(t)))
+		}
+		bt = fmt.Sprintf("(! %s :pattern (%s))", bt, strings.Join(ps, " "))
+	}
 	return term(fmt.Sprintf("(%s (%s) %s)", q, strings.Join(decls, " "), bt), tBool)
 }
 
